@@ -26,35 +26,53 @@ def takeDigits (s : List Char) : Option (List Char × List Char) :=
   let ds := s.takeWhile isDigit
   if ds = [] then none else some (ds, s.dropWhile isDigit)
 
+/-- `-?` -/
+def scanSign : List Char → Bool × List Char
+  | c :: r => if c = '-' then (true, r) else (false, c :: r)
+  | [] => (false, [])
+
+/-- `(?:0|[1-9]\d*)`: after a leading zero the integer part ends -/
+def scanInt (s : List Char) : Option (List Char × List Char) :=
+  match takeDigits s with
+  | none => none
+  | some (ds, r) =>
+      if ds.head? = some '0' ∧ 1 < ds.length then some (['0'], ds.tail ++ r) else some (ds, r)
+
+/-- `(\.\d+)?` -/
+def scanFrac : List Char → Option (List Char) × List Char
+  | c :: r =>
+      if c = '.' then
+        (match takeDigits r with
+         | some (f, r') => (some f, r')
+         | none => (none, c :: r))
+      else (none, c :: r)
+  | [] => (none, [])
+
+/-- `[-+]?` -/
+def scanExpSign : List Char → Option Char × List Char
+  | c :: r => if c = '+' then (some '+', r) else if c = '-' then (some '-', r) else (none, c :: r)
+  | [] => (none, [])
+
+/-- `([eE][-+]?\d+)?` -/
+def scanExp : List Char → Option (Char × Option Char × List Char) × List Char
+  | m :: r =>
+      if m = 'e' ∨ m = 'E' then
+        (match takeDigits (scanExpSign r).2 with
+         | some (ds, r'') => (some (m, (scanExpSign r).1, ds), r'')
+         | none => (none, m :: r))
+      else (none, m :: r)
+  | [] => (none, [])
+
 /-- json.scanner `NUMBER_RE = (-?(?:0|[1-9]\d*))(\.\d+)?([eE][-+]?\d+)?` applied to the whole text
     (the text is the complete value of a JSON member, so anything left over makes the body non-JSON) -/
-def scanNumber (s : List Char) : Option NumText := do
-  let (neg, s) := match s with
-    | '-' :: r => (true, r)
-    | _ => (false, s)
-  let (intDigits, s) ← takeDigits s
-  -- `0|[1-9]\d*`: after a leading zero the integer part ends
-  let (intDigits, s) := match intDigits with
-    | '0' :: (d :: ds) => (['0'], (d :: ds) ++ s)
-    | _ => (intDigits, s)
-  let (frac, s) := match s with
-    | '.' :: r => (match takeDigits r with
-                   | some (f, r') => (some f, r')
-                   | none => (none, s))
-    | _ => (none, s)
-  let (exp, s) := match s with
-    | m :: r =>
-        if m = 'e' ∨ m = 'E' then
-          let (sg, r') := match r with
-            | '+' :: r' => (some '+', r')
-            | '-' :: r' => (some '-', r')
-            | _ => (none, r)
-          match takeDigits r' with
-          | some (ds, r'') => (some (m, sg, ds), r'')
-          | none => (none, s)
-        else (none, s)
-    | [] => (none, s)
-  if s = [] then some { neg := neg, intDigits := intDigits, frac := frac, exp := exp } else none
+def scanNumber (s : List Char) : Option NumText :=
+  match scanInt (scanSign s).2 with
+  | none => none
+  | some (intDigits, s2) =>
+      if (scanExp (scanFrac s2).2).2 = [] then
+        some { neg := (scanSign s).1, intDigits := intDigits, frac := (scanFrac s2).1,
+               exp := (scanExp (scanFrac s2).2).1 }
+      else none
 
 /-- number of decimal digits (`len(str(n))`) -/
 def ndigits (n : Nat) : Nat := if n < 10 then 1 else ndigits (n / 10) + 1
